@@ -307,6 +307,12 @@ def conc_family(rng, tier):
     progs.append(("ins_sweep_ins", _cprog(five, [[I(6), G(6)], [I(2, 0, 60), G(2)]], **small)))
     progs.append(("evict_evict", _cprog(five, [[E], [E, G(2)]], **small)))
     progs.append(("touch_evict", _cprog(five, [[G(1), G(2)], [E, G(1)]], **small)))
+    # clear() against calls that land in a bucket the sweep of clear() has not reached yet / has already passed
+    C = {"op": "c_clear"}
+    progs.append(("clear_ins", _cprog(full, [[C, G(1)], [I(5), G(5)]])))
+    progs.append(("clear_rm", _cprog(full, [[C, G(2)], [R(2), G(2)]])))
+    progs.append(("clear_insrm", _cprog(tagged, [[C], [I(1, 12, 80), R(2, 21), G(1, 12)]])))
+    progs.append(("clear_evict", _cprog(five, [[C, G(1)], [I(6), G(6)]], **small)))
     if tier != "quick":
         for a in (1, 2, 3):
             progs.append(("rm_ins_ev_%d" % a, _cprog(five, [[R(a), G(a)], [I(6), G(6)], [E]], **small)))
